@@ -390,7 +390,7 @@ def clean(text):
 # checking one program
 
 
-def check_program(h, prog, tmp, stats):
+def check_program(h, prog, tmp, stats, keep_module=False):
     path = os.path.join(tmp, prog.mod + ".py")
     with open(path, "w") as f:
         f.write(HEADER + "\n".join(f"{k} = {v!r}" for k, v in prog.consts.items()) + "\n\n" + "\n".join(prog.lines) + "\n")
@@ -501,6 +501,15 @@ def check_program(h, prog, tmp, stats):
                         break
             h.check(ok, short(f"c13:cli:{diag}:{fam}{vtag}"), what, dict(case, argv=argv))
 
+    # ---- clause `required`: without run-time conditionals, a parameter the component cannot be called without (TypeError
+    # "missing ... required") keeps the (absent) default of the signature it comes from: it is offered as required
+    if not prog.flag:
+        for n in bases[0]:
+            if n in offered and n in params:
+                tag = role_of(prog.tags.get(n, "?"))
+                h.check(params[n].default is inspect.Parameter.empty, short(f"c13:required:offered-with-a-default:{families(shape)[1]}:{tag}"),
+                        f"parameter {n} is required by the code (lands in {expected.get(n)}, calling without it raises TypeError) but is offered with default {params[n].default!r}", dict(case, name=n))
+
     # ---- clause `origin`
     for n in offered:
         if n not in expected or n not in params:
@@ -522,8 +531,9 @@ def check_program(h, prog, tmp, stats):
                     f"parameter {n}: offered ({p.annotation!r}, {p.default!r}) but it lands in {expected[n]} declared ({sp.annotation!r}, {sp.default!r})", dict(case, name=n))
     if len(h.samples) < 5 and stats["programs"] % 97 == 5:
         h.sample({"shape": shape, "source": "\n".join(prog.lines), "offered": offered, "expected": expected})
-    sys.modules.pop(prog.mod, None)
-    sys.modules.pop(prog.aux, None)
+    if not keep_module:
+        sys.modules.pop(prog.mod, None)
+        sys.modules.pop(prog.aux, None)
 
 
 UNSUPPORTED = object()
@@ -754,6 +764,16 @@ def gen_programs(h):
                 p.top = (class_chain(p, links, lay_cycles[(ci + li) % 4]), None)
                 yield p
 
+    # ---- A2: super(X, self) that skips a base *below* the top class (depth 4 and 5; in the quick tier depth 4 is otherwise not reached)
+    for links in [("plain", "super2", "plain"), ("plain", "super2", "hardkw"), ("hardkw", "super2", "plain"), ("plain", "super2", "popa"), ("plain", "plain", "super2", "plain"),
+                  ("plain", "super2", "super2"), ("plain", "super2", "plain", "plain")]:
+        if any(l not in CLASS_LINKS for l in links):
+            continue
+        for li in range(2):
+            p = new_prog(counter, f"cls:d{len(links) + 1}:{'/'.join(links)}:{'+'.join(lay_cycles[li])}:skip-below-top")
+            p.top = (class_chain(p, links, lay_cycles[li]), None)
+            yield p
+
     # ---- B: function call chains, depth 1..D, with different bottoms
     for lay in LAYOUTS:
         p = new_prog(counter, f"fn:d1:{lay}")
@@ -794,6 +814,19 @@ def gen_programs(h):
         for lays in lay_cycles[:2] if not h.thorough else lay_cycles:
             p = new_prog(counter, f"mi:{variant}:{'+'.join(lays)}")
             p.top = (diamond(p, variant, lays), None)
+            yield p
+
+    # ---- C2: histories - several classes of one family resolved one after the other in the same process (what is offered
+    # for a class must not depend on which other classes were resolved before; Left's super() is Right inside Top but Root inside Solo)
+    for variant in ["coop", "left-hardkw", "left-popb"]:
+        for order in [("Top", "Solo"), ("Solo", "Top"), ("Top", "Left", "Solo"), ("Left", "Top"), ("Top", "Solo", "Top")]:
+            p = new_prog(counter, f"mi-history:{variant}:{'>'.join(order)}")
+            top = diamond(p, variant, lay_cycles[0])
+            ps = own(p, "d", 3)
+            emit_class(p, "Solo", ["Left"], emit_fn(p, "__init__", ps, "kwargs", [], ("fwd", Fwd("super().__init__")), indent="    ", first="self", where="Solo.__init__"))
+            units = {"Top": top, "Solo": Unit("Solo", "init", ps, ps), "Left": Unit("Left", "init", [], [])}
+            p.tops = [(units[n], None) for n in order]
+            p.top = p.tops[0]
             yield p
 
     # ---- D: kwargs stored in an attribute and used in a method / property
@@ -1150,7 +1183,10 @@ def main():
             for prog in gen_programs(h):
                 if h.only and h.only != prog.shape:
                     continue
-                check_program(h, prog, tmp, stats)
+                tops = getattr(prog, "tops", [prog.top])
+                for ti, top in enumerate(tops):
+                    prog.top = top
+                    check_program(h, prog, tmp, stats, keep_module=ti < len(tops) - 1)
         finally:
             sys.path[:] = saved_path
             sys.dont_write_bytecode = old_dwb
